@@ -94,7 +94,7 @@ def coq_config(sc):
     cfg = sc["config"]
     U, tpb = sc["U"], sc["tpb"]
     assert U % tpb == 0
-    cbs = lst(["(%s, %s)" % ({"none": "CbNone", "exc": "CbExc", "stop": "CbStop"}[cb["raise"]],
+    cbs = lst(["cbk %s %s" % ({"none": "CbNone", "exc": "CbExc", "stop": "CbStop"}[cb["raise"]],
                               lst([coq_op(o) for o in cb["ops"]])) for cb in sc.get("callbacks", [])])
     return "(mkConfig %s %s %s %s %s %s %s %s)" % (
         zlit(U // tpb), cbs, zlit(cfg.get("latency", 0)), zlit(cfg.get("max_tracks", 0)),
@@ -103,7 +103,7 @@ def coq_config(sc):
 
 
 def coq_history(sc):
-    return lst(["(%s, %s)" % (coq_op(o), zlit(o[1] if o[0] == "tick" else 1)) for o in sc["ops"]])
+    return lst(["hop (%s) %s" % (coq_op(o), zlit(o[1] if o[0] == "tick" else 1)) for o in sc["ops"]])
 
 
 RES = {"ok": "ROk", "stop": "RStopIteration", "exc": "RException", "limit": "RTrackLimit", "notfound": "RTrackNotFound"}
@@ -138,8 +138,21 @@ def obs_well_typed(obs):
 
 
 def coq_expected(obs):
-    return lst(["(%s, %s, %s, %s)" % (zlit(i), lst([coq_call(c) for c in calls]), RES[res], lst([natlit(t) for t in ids]))
-                for i, calls, res, ids in obs])
+    """list sobs literal; runs of consecutive operations with the same observation are written as so_rep"""
+    parts, i = [], 0
+    while i < len(obs):
+        idx, calls, res, ids = obs[i]
+        j = i + 1
+        while j < len(obs) and obs[j][0] == idx + (j - i) and obs[j][1:] == obs[i][1:]:
+            j += 1
+        args = "%s %s %s %s" % (zlit(idx), lst([coq_call(c) for c in calls]), RES[res], lst([natlit(t) for t in ids]))
+        if j - i >= 3:
+            parts.append("so_rep (Z.to_nat %d) %s" % (j - i, args))
+        else:
+            for k in range(i, j):
+                parts.append("[so %s %s %s %s]" % (zlit(obs[k][0]), lst([coq_call(c) for c in calls]), RES[res], lst([natlit(t) for t in ids])))
+        i = j
+    return "(concat %s)" % lst(parts)
 
 
 def agrees_term(sc, obs):
